@@ -7,6 +7,7 @@ import (
 	"github.com/sboehler/knut/lib/common/compare"
 	"github.com/sboehler/knut/lib/common/dict"
 	"github.com/sboehler/knut/lib/common/table"
+	"github.com/sboehler/knut/lib/model"
 	"github.com/sboehler/knut/lib/model/account"
 	"github.com/sboehler/knut/lib/model/commodity"
 	"github.com/sboehler/knut/lib/model/registry"
@@ -119,12 +120,47 @@ func (rn *Renderer) renderNode(tbl *table.Table, n *Node) {
 }
 
 func compareAccount(k1, k2 amounts.Key) compare.Order {
-	return account.Compare(k1.Other, k2.Other)
+	if c := account.Compare(k1.Other, k2.Other); c != compare.Equal {
+		return c
+	}
+	return compareRest(k1, k2)
 }
 
 func compareAccountAndCommodities(k1, k2 amounts.Key) compare.Order {
 	if c := account.Compare(k1.Other, k2.Other); c != compare.Equal {
 		return c
 	}
-	return commodity.Compare(k1.Commodity, k2.Commodity)
+	if c := commodity.Compare(k1.Commodity, k2.Commodity); c != compare.Equal {
+		return c
+	}
+	return compareRest(k1, k2)
+}
+
+// compareRest orders keys which agree on the sort columns, so that
+// the order of the rows does not depend on the iteration order of the map.
+func compareRest(k1, k2 amounts.Key) compare.Order {
+	if c := compare.Ordered(accountName(k1.Account), accountName(k2.Account)); c != compare.Equal {
+		return c
+	}
+	if c := compare.Ordered(k1.Description, k2.Description); c != compare.Equal {
+		return c
+	}
+	if c := compare.Ordered(commodityName(k1.Commodity), commodityName(k2.Commodity)); c != compare.Equal {
+		return c
+	}
+	return compare.Ordered(commodityName(k1.Valuation), commodityName(k2.Valuation))
+}
+
+func accountName(a *model.Account) string {
+	if a == nil {
+		return ""
+	}
+	return a.Name()
+}
+
+func commodityName(c *model.Commodity) string {
+	if c == nil {
+		return ""
+	}
+	return c.Name()
 }
